@@ -4,9 +4,15 @@ hypothesis `BuiltinsNoPanic` of P5 (`Pipeline.render_never_panics`) discharged f
 that are modelled in Lean.  From `C17.builtins_never_panic` (every modelled filter and test, on
 every receiver whose scalar payload is in range and every keyword arguments), `C17.range_never_panics`
 and `C17.throw_contract`; the filters written out in the dispatch (`safe str length reverse first
-last nth join keys values pairs split`) answer values or error classes by construction.
+last nth join keys values pairs split sort unique group_by`, the models of C16) and the
+`containing` test of C15 answer values or error classes by construction: their models have no
+panic outcome.  The one panic source std documents for them — `slice::sort_by` with a comparison
+that is not a total order — is excluded by `C16_sort_by_precondition` (cited below as
+`sort_comparison_is_total_order`); the `BTreeSet` of `unique` relies on the same theorem.
 -/
 import TeraModel.Props.C17
+import TeraModel.Props.C16
+import TeraModel.Props.C15
 import TeraModel.Lemmas.PipelineEnv
 import TeraModel.Model.PipelineBuiltins
 namespace Tera.Pipeline.BuiltinsM
@@ -25,7 +31,7 @@ theorem callFilterM_np (fmt : F64 → List Char) (name : String) (v : Value) (kw
     (callFilterM fmt name v kw).isPanic = false := by
   unfold callFilterM
   simp only
-  cases hl : lookup (filterTable asciiParams) name with
+  cases hl : lookup (filterTable caseParams) name with
   | none => rfl
   | some b =>
     simp only
@@ -36,7 +42,7 @@ theorem callFilterM_np (fmt : F64 → List Char) (name : String) (v : Value) (kw
       | ok u =>
         have hbody : ∀ s, b.body v kw ≠ .panic s := by
           intro s
-          have := C17.builtins_never_panic asciiParams name b (Or.inl hl) v kw hw s
+          have := C17.builtins_never_panic caseParams name b (Or.inl hl) v kw hw s
           simpa [Builtin.apply, hc] using this
         simp only
         repeat' split
@@ -47,6 +53,9 @@ theorem callFilterM_np (fmt : F64 → List Char) (name : String) (v : Value) (kw
     · simp only [hw, not_false_eq_true, if_true]
       rfl
 
+theorem containingM_np (v pat : Value) : (containingM v pat).isPanic = false := by
+  unfold containingM; split <;> rfl
+
 theorem callTestM_np (name : String) (v : Value) (kw : List (String × Value)) :
     (callTestM name v kw).isPanic = false := by
   unfold callTestM
@@ -56,7 +65,14 @@ theorem callTestM_np (name : String) (v : Value) (kw : List (String × Value)) :
     simp only
     by_cases hw : v.scalarWF
     · simp only [hw, not_true_eq_false, if_false]
-      exact ofOutcome_np (fun s => C17.builtins_never_panic asciiParams name b (Or.inr hl) v kw hw s)
+      have hb : ∀ s, b.apply v kw ≠ .panic s :=
+        fun s => C17.builtins_never_panic asciiParams name b (Or.inr hl) v kw hw s
+      repeat' split
+      all_goals first
+        | rfl
+        | exact ofBErr_np _
+        | exact containingM_np _ _
+        | exact ofOutcome_np hb
     · simp only [hw, not_false_eq_true, if_true]
       rfl
 
@@ -80,6 +96,16 @@ theorem callFunctionM_np (name : String) (kw : List (String × Value)) :
         obtain ⟨e, he⟩ := C17.throw_contract kw
         rw [he]; simp
       · cases hl
+
+/-- The comparison `sort` hands to `slice::sort_by` (and `unique` to its `BTreeSet`) is a total
+order on every well-formed value (C16): the precondition under which std promises not to panic. -/
+theorem sort_comparison_is_total_order : OrdLaws Value.WF Value.cmp := C16.C16_sort_by_precondition
+
+/-- The constant hasher of the instance is no assumption: a lookup answers the same for every
+hasher (C15). -/
+theorem hasher_irrelevant {β : Type} (H : List HashTok → Nat) (k : KeyRepr) (m : List (Key × β)) :
+    Map.hashGet H k m = Map.hashGet hasher k m := by
+  rw [Map.hashGet_eq_get, Map.hashGet_eq_get]
 
 /-- **the built-ins of the composed model never panic**: `BuiltinsNoPanic` holds for the Lean-side
 instance, for every float printer and every float arithmetic -/
